@@ -529,6 +529,7 @@ class LoaderBase(ABC):
             A loader instance of the same type with updated molecules.
         """
         _backend = backend or Backend()
+        max_shifts = _normalize_max_shifts(max_shifts)
         _max_shifts_px = np.asarray(max_shifts) / self.scale
 
         if isinstance(templates, ImageProvider):
